@@ -138,6 +138,8 @@ def m_rc_eq(I, fr, a, ck):
 
 def value_eq_call(I, fr, x, y, negate=False):
     """PartialEq on values: unwrap Rc/Box/&, then ints / crate impl / structural for std containers"""
+    if x is y and not negate and isinstance(x, (RcV, Adt, Seq, Str)):
+        return True       # Eq is reflexive for every type compared in this crate (no floats)
     while isinstance(x, (RcV, BoxV)):
         x = x.inner
     while isinstance(y, (RcV, BoxV)):
@@ -1785,8 +1787,91 @@ def m_set_contains(I, fr, a, ck):
     return r.alts[1][0] if 1 in r.alts else False
 
 
+def m_refcell_eq(I, fr, a, ck):
+    """<RefCell<T> as PartialEq>::eq: *self.borrow() == *other.borrow()"""
+    x = _refcell_of(I, fr, a[0])
+    y = _refcell_of(I, fr, a[1])
+    sx, sy = fr.mem[x.cell], fr.mem[y.cell]
+    if sx.borrow < 0 or sy.borrow < 0:
+        return Outs([panic(True, 'RefCell already mutably borrowed')])
+    return value_eq_call(I, fr, sx.content, sy.content, ck.method == 'ne')
+
+
+def m_int_op_trait(I, fr, a, ck):
+    """<T as Shr/Shl/Add/Sub/Mul/BitAnd/BitOr/BitXor<U>>::op on integers (operands possibly behind references)"""
+    x = I.peel_all(a[0], fr)
+    y = I.peel_all(a[1], fr) if len(a) > 1 else None
+    t = _int_ty((ck.selfraw or '').replace('&', '').strip()) or (64, False)
+    bits, signed = t
+    tr = ck.trait
+    if isinstance(x, OrdId):
+        x = x.bv()
+    if isinstance(y, OrdId):
+        y = y.bv()
+    conc = isinstance(x, int) and (y is None or isinstance(y, int))
+    if tr in ('Shr', 'Shl'):
+        if isinstance(y, int):
+            if y >= bits or y < 0:
+                return Outs([panic(True, 'attempt to shift with overflow')]) if I.cfg['overflow_checks'] else I.wrap(0, bits, signed)
+            if conc:
+                return I.wrap((x >> y) if tr == 'Shr' else (x << y), bits, signed)
+            X = I.to_bv(x, bits)
+            Y = z3.BitVecVal(y, bits)
+            return (X >> Y if signed else z3.LShR(X, Y)) if tr == 'Shr' else X << Y
+        X = I.to_bv(x, bits)
+        Y = I.to_bv(y, bits)
+        ovf = z3.UGE(Y, z3.BitVecVal(bits, bits))
+        r = (X >> (Y & (bits - 1)) if signed else z3.LShR(X, Y & (bits - 1))) if tr == 'Shr' else X << (Y & (bits - 1))
+        if I.cfg['overflow_checks']:
+            return Outs([panic(ovf, 'attempt to shift with overflow'), ret(r, gnot(ovf))])
+        return r
+    if tr in ('BitAnd', 'BitOr', 'BitXor'):
+        if isinstance(x, (bool, z3.BoolRef)):
+            return {'BitAnd': gand(x, y), 'BitOr': gor(x, y), 'BitXor': gnot(beq_(x, y))}[tr]
+        if conc:
+            return {'BitAnd': x & y, 'BitOr': x | y, 'BitXor': x ^ y}[tr]
+        X, Y = I.to_bv(x, bits), I.to_bv(y, bits)
+        return {'BitAnd': X & Y, 'BitOr': X | Y, 'BitXor': X ^ Y}[tr]
+    if tr in ('Add', 'Sub', 'Mul'):
+        if conc:
+            e = {'Add': x + y, 'Sub': x - y, 'Mul': x * y}[tr]
+            w = I.wrap(e, bits, signed)
+            if w != e and I.cfg['overflow_checks']:
+                return Outs([panic(True, 'attempt to %s with overflow' % tr.lower())])
+            return w
+        X, Y = I.to_bv(x, bits), I.to_bv(y, bits)
+        if tr == 'Add':
+            r = X + Y
+            ok = z3.And(z3.BVAddNoOverflow(X, Y, signed), z3.BVAddNoUnderflow(X, Y)) if signed else z3.BVAddNoOverflow(X, Y, False)
+        elif tr == 'Sub':
+            r = X - Y
+            ok = z3.And(z3.BVSubNoOverflow(X, Y), z3.BVSubNoUnderflow(X, Y, True)) if signed else z3.UGE(X, Y)
+        else:
+            r = X * Y
+            ok = z3.And(z3.BVMulNoOverflow(X, Y, signed), z3.BVMulNoUnderflow(X, Y)) if signed else z3.BVMulNoOverflow(X, Y, False)
+        if I.cfg['overflow_checks']:
+            return Outs([panic(z3.Not(ok), 'attempt to %s with overflow' % tr.lower()), ret(r, ok)])
+        return r
+    if tr == 'Not':
+        if isinstance(x, (bool, z3.BoolRef)):
+            return gnot(x)
+        return I.wrap(~x, bits, signed) if isinstance(x, int) else ~I.to_bv(x, bits)
+    raise Unsupported('operator trait ' + ck.raw)
+
+
+def beq_(a, b):
+    if isinstance(a, bool) and isinstance(b, bool):
+        return a == b
+    return to_bool(a) == to_bool(b)
+
+
 def register_ints(M):
     A = M.add
+    for tr, m in (('Shr', 'shr'), ('Shl', 'shl'), ('Add', 'add'), ('Sub', 'sub'), ('Mul', 'mul'), ('BitAnd', 'bitand'), ('BitOr', 'bitor'), ('BitXor', 'bitxor'), ('Not', 'not')):
+        for t in ('usize', 'u64', 'i64', 'isize', 'u32', 'i32', 'u8', 'u16', 'bool'):
+            A(t, tr, m, m_int_op_trait)
+    A('RefCell', 'PartialEq', 'eq', m_refcell_eq)
+    A('RefCell', 'PartialEq', 'ne', m_refcell_eq)
     A('HashSet', None, 'insert', m_set_insert)
     A('HashSet', None, 'contains', m_set_contains)
     A('HashSet', None, 'new', m_map_default)
